@@ -18,7 +18,7 @@ def judge_program(case, judge, caps=None):
     caps = caps or case.get("caps") or dict(max_steps=40000, max_effects=100)
     fmeta = funcs_of(src)
     lits = H.literals(src)
-    cnt = dict(compiles=0, successes=0, errors=0, vm_runs=0, ref_runs=0, not_judged=0, unmodelled=0, same=0, truncated=0, effects_compared=0, calls_executed=0, returns_checked=0, tail_calls=0, max_call_depth=0, pushes=0, back_jumps=0, machine_events=0, halted_with_source=0, diverged=0, loader_events=0, abandoned_pseudo_frames=0)
+    cnt = dict(compiles=0, successes=0, errors=0, vm_runs=0, ref_runs=0, not_judged=0, unmodelled=0, same=0, truncated=0, effects_compared=0, calls_executed=0, returns_checked=0, tail_calls=0, max_call_depth=0, pushes=0, back_jumps=0, machine_events=0, halted_with_source=0, diverged=0, loader_events=0, abandoned_pseudo_frames=0, ill_conditioned=0)
     feats = set([case.get("stream", "?")])
     vio = []
     trig = None
@@ -85,7 +85,9 @@ def judge_program(case, judge, caps=None):
                     if verdict == "differ" and info["kind"] in ("ref-stopped-early", "one-side-loops-forever", "halt-kind"):
                         problems.append(dict(signature=dict(monitor="termination", event="chip-keeps-running-after-source-ended", vm_status=vm["status"], machine_event=ev["event"], **oc), detail=dict(info=info, event=ev)))
             elif ref["status"] != "not-judged":
-                verdict, info = H.compare_traces(vm, ref)
+                verdict, info, cond = H.compare_conditioned(vm, ref, "vm", "ref", ref, lambda: H.run_ref(main, es, lits, modules=modules, perturb=True, **caps))
+                if cond:
+                    cnt["ill_conditioned"] += 1
                 cnt["effects_compared"] += min(len(vm["effects"]), len(ref["effects"]))
                 if verdict == "same":
                     cnt["same"] += 1
